@@ -18,7 +18,7 @@ def explore(ctx):
                   'search ends': 'when a BFS level adds no new canonical state (reported in notes) or at the depth cap',
                   'deep part': 'all histories up to depth %d over 6 large calls (2^12..2^14) on an object of domain 2^13, without state merging' % (5 if ctx.tier == 'thorough' else 4)}
     ctx.assumptions = ['canonicalisation: later results depend only on the call arguments, constructor tables, (r, r_) and the default team size -- all in the key; fields that are hashed are compared by content']
-    r = ctx.run_step('c19_bfs', ctx.bins['c19_bfs'])
+    r = ctx.run_step('c19_bfs', ctx.bins['c19_bfs'], ['--lits', ctx.lits_arg()])
     if ctx.stats.get('framework_replay_divergence', 0):
         raise vlib.FrameworkError('history replay did not reproduce the recorded canonical key')
     if ctx.stats.get('depth_cap_hit', 0):
